@@ -348,3 +348,176 @@ def fixed_size_bits(s: M.Schema, t: M.Type) -> Optional[int]:
             tot += x
         return tot
     return None
+
+
+# ------------------------------------------------------------- extension values, impls
+string_body = st.text(
+    alphabet=st.characters(min_codepoint=32, max_codepoint=126, blacklist_characters='"\\'), max_size=8
+)
+
+_num_spellings = st.one_of(
+    st.integers(-(2**40), 2**40),
+    st.sampled_from([0, 1, -1, 255, 2047, -128]),
+    st.floats(allow_nan=False, allow_infinity=False, width=64).filter(lambda x: x == x),
+    st.sampled_from([
+        M.Num("+5", 5), M.Num("-0", 0), M.Num("1.5", 1.5), M.Num("2e3", 2000.0), M.Num("-2.5E-3", -0.0025),
+        M.Num("1.", 1.0), M.Num(".5", 0.5), M.Num("007", 7), M.Num("+.5e1", 5.0), M.Num("1e0", 1.0),
+    ]),
+)
+
+
+def ext_values(ident_pool: Optional[st.SearchStrategy] = None, max_depth: int = 2) -> st.SearchStrategy:
+    ident_pool = ident_pool or any_ident
+    leaf = st.one_of(_num_spellings, string_body, ident_pool.map(M.Ident))
+    return st.recursive(leaf, lambda inner: st.lists(inner, min_size=1, max_size=3), max_leaves=6)
+
+
+def leaf_field_names(s: M.Schema, struct_name: str) -> Tuple[List[str], List[str], List[str]]:
+    """(top-level field names, nested field names, unrolled element names) of a struct."""
+    top = [f.name for f in s.struct(struct_name).fields]
+    nested: List[str] = []
+    unrolled: List[str] = []
+
+    def walk(st_: M.Struct, is_top: bool) -> None:
+        for f in st_.fields:
+            if not is_top:
+                nested.append(f.name)
+            t = f.type
+            nm = f.name
+            while isinstance(t, M.Arr):
+                nm = nm + "_0"
+                unrolled.append(nm)
+                t = t.t
+            if isinstance(t, M.StructRef):
+                walk(s.struct(t.name), False)
+
+    walk(s.struct(struct_name), True)
+    return top, nested, unrolled
+
+
+@st.composite
+def signal_blocks(draw, s: M.Schema, struct_name: str, max_blocks: int = 3,
+                  mux: bool = True, arbitrary_keys: bool = True, big_ok=None) -> List[M.SignalBlock]:
+    top, nested, unrolled = leaf_field_names(s, struct_name)
+    pool = top * 3 + nested + unrolled + ["nosuchfield", "zz_9"]
+    n = draw(st.integers(0, max_blocks))
+    names = draw(st.lists(st.sampled_from(pool), min_size=n, max_size=n, unique=True))
+    out = []
+    for nm in names:
+        fields: List[Tuple[str, Any]] = []
+        if draw(st.booleans()):
+            fields.append(("endianess", draw(st.sampled_from(["big", "little"]))))
+        if mux and draw(st.integers(0, 2)) == 0:
+            fields.append(("mux_count", draw(st.integers(1, 16))))
+            fields.append(("mux_signal", draw(st.sampled_from(top))))
+        if arbitrary_keys and draw(st.integers(0, 2)) == 0:
+            fields.append((draw(lower_ident.filter(lambda k: k not in ("endianess", "mux_count", "mux_signal"))),
+                           draw(ext_values())))
+        if not fields:
+            fields.append(("scale", draw(st.sampled_from([1, 2, 0.5]))))
+        out.append(M.SignalBlock(nm, fields))
+    return out
+
+
+def interleave(draw, n_f: int, n_s: int) -> List[Tuple[str, int]]:
+    slots = ["f"] * n_f + ["s"] * n_s
+    perm = draw(st.permutations(slots)) if slots else []
+    fi = si = 0
+    order = []
+    for k in perm:
+        if k == "f":
+            order.append(("f", fi))
+            fi += 1
+        else:
+            order.append(("s", si))
+            si += 1
+    return order
+
+
+# ---------------------------------------------------------------- full schemas (C07/C12)
+@dataclass
+class FullCfg:
+    data: SchemaCfg = field(default_factory=lambda: SchemaCfg(units=True, ranges=True, enum_max_bits=31))
+    max_impls: int = 4
+    max_services: int = 2
+    max_devices: int = 2
+    free_positions: bool = True  # extras may precede the declarations they mention
+    protocols: Sequence[str] = ("can", "uart", "lin", "other")
+    ext_keys: Optional[st.SearchStrategy] = None
+    u32_ids: bool = True
+
+
+@st.composite
+def ext_field_list(draw, min_size: int, max_size: int, keys: Optional[st.SearchStrategy] = None,
+                   exclude: Sequence[str] = ()) -> List[Tuple[str, Any]]:
+    keys = keys or lower_ident
+    n = draw(st.integers(min_size, max_size))
+    ks = draw(unique_names(keys, n, n, exclude))
+    return [(k, draw(ext_values())) for k in ks]
+
+
+@st.composite
+def impl_decl(draw, s: M.Schema, cfg: FullCfg, taken: set) -> Optional[M.Impl]:
+    structs = [x.name for x in s.structs]
+    target = draw(st.sampled_from(structs))
+    proto = draw(st.sampled_from(list(cfg.protocols)))
+    nm = draw(st.none() | pascal_ident)
+    eff = nm or target
+    if (eff, proto) in taken:
+        return None
+    taken.add((eff, proto))
+    fields = draw(ext_field_list(0, 4, cfg.ext_keys))
+    sbs = draw(signal_blocks(s, target, max_blocks=2))
+    if not fields and not sbs:
+        fields = [("id", draw(st.integers(0, 2047)))]
+    order = interleave(draw, len(fields), len(sbs))
+    return M.Impl(proto, target, nm, fields, sbs, order, explicit_as=draw(st.booleans()))
+
+
+@st.composite
+def service_decl(draw, s: M.Schema, name: str) -> M.Service:
+    structs = [x.name for x in s.structs]
+    n = draw(st.integers(1, 3))
+    mnames = draw(unique_names(any_ident, n, n))
+    mids = draw(st.lists(st.integers(0, 2**32 - 1) | st.integers(0, 10), min_size=n, max_size=n, unique=True))
+    methods = [M.Method(mn, draw(st.sampled_from(structs)), mid, draw(st.sampled_from(structs)))
+               for mn, mid in zip(mnames, mids)]
+    return M.Service(name, draw(st.integers(0, 2**32 - 1) | st.integers(0, 10)), methods)
+
+
+@st.composite
+def full_schema(draw, cfg: Optional[FullCfg] = None) -> M.Schema:
+    cfg = cfg or FullCfg()
+    s = draw(data_schema(cfg.data))
+    extras: List[M.Decl] = []
+    taken: set = set()
+    for _ in range(draw(st.integers(0, cfg.max_impls))):
+        im = draw(impl_decl(s, cfg, taken))
+        if im is not None:
+            extras.append(im)
+    type_names = {d.name for d in s.decls}
+    n_svc = draw(st.integers(0, cfg.max_services))
+    svc_names = draw(unique_names(pascal_ident, n_svc, n_svc, list(type_names)))
+    for nm in svc_names:
+        extras.append(draw(service_decl(s, nm)))
+    n_dev = draw(st.integers(0, cfg.max_devices))
+    dev_names = draw(unique_names(lower_ident, n_dev, n_dev))
+    for nm in dev_names:
+        fields = draw(ext_field_list(0, 3, exclude=("services",)))
+        if svc_names and draw(st.booleans()):
+            sub = draw(st.lists(st.sampled_from(svc_names), min_size=1, max_size=len(svc_names), unique=True))
+            fields.append(("services", [M.Ident(x) for x in sub]))
+        if not fields:
+            fields = [("id", draw(st.integers(0, 255)))]
+        extras.append(M.Device(nm, fields))
+    extras = list(draw(st.permutations(extras)))
+    decls = list(s.decls)
+    for e in extras:
+        if cfg.free_positions:
+            pos = draw(st.integers(0, len(decls)))
+        else:
+            # after everything it mentions: simply after all data declarations seen so far
+            lo = max((i + 1 for i, d in enumerate(decls) if isinstance(d, (M.Struct, M.Enum))), default=0)
+            pos = draw(st.integers(lo, len(decls)))
+        decls.insert(pos, e)
+    return M.Schema(decls)
